@@ -27,6 +27,8 @@ AbsClose(s) == IF ~s.open THEN [s EXCEPT !.res = "NOT_OPEN"]
                ELSE [s EXCEPT !.open = FALSE, !.cause[s.gen] = "nil", !.res = "closed",
                               !.log = IF s.alive THEN Append(s.log, CB("cleanly", 0, 0)) ELSE s.log,
                               !.alive = FALSE]
+\* the underlying Close() fails: the error is returned and the transport stays open (and closable later)
+AbsCloseFail(s) == IF ~s.open THEN [s EXCEPT !.res = "NOT_OPEN"] ELSE [s EXCEPT !.res = "closeerr"]
 \* the reopen loop of the monitor runner after an unclean close: k = number of underlying Open() failures to come
 RECURSIVE Reopen(_, _, _, _)
 Reopen(s, k, n, w) ==        \* n = failed attempts so far, w = wait before the next attempt
@@ -47,6 +49,7 @@ VARIABLE a
 AInit == a = AbsInit
 ANext == \/ a.gen < MaxGen /\ a' = AbsOpen(a)
          \/ a' = AbsClose(a)
+         \/ a' = AbsCloseFail(a)
          \/ \E kind \in Kinds, k \in 0..MaxAttempts :
                a.open /\ (k = 0 \/ (a.alive /\ Cause(kind) = "err")) /\ (a.gen < MaxGen \/ k >= MaxAttempts \/ ~a.alive \/ Cause(kind) = "nil")
                /\ a' = AbsFault(a, kind, k)
